@@ -126,7 +126,10 @@ def run(chk, tier, seed, replay=None):
     chk.sample({'patterns': lists[40], 'names': NAMES[:4], 'observed': out[40].get('obs', [])[:4]})
     # end to end
     w = e2e_world()
-    tpool = ['alpha', '^test_a', 'eta', '', '.', '!beta', '!alpha', '!', 'TL1', '!TL2', 'zzz']
+    # (the last two match the module's dotted name but no test id: a negated
+    # --test pattern must not decide which modules are looked at)
+    tpool = ['alpha', '^test_a', 'eta', '', '.', '!beta', '!alpha', '!', 'TL1', '!TL2', 'zzz',
+             '!^tests', '!tests$']
     lpool = ['L1', 'L', 'Unit', '!L1', '!Unit', '', '.', 'zzz']
     cases = []
     k = 0
@@ -141,6 +144,11 @@ def run(chk, tier, seed, replay=None):
             k += 1
             cases.append({'id': 'e%d' % k, 'world': dict(w, id='e%d' % k),
                           'o': {'t': list(c), 'list': True}, 'mode': 'inproc'})
+    # in-process runs are handed the suite; real discovery (where the module
+    # predicate is applied) needs the command line
+    for i, c in enumerate(cases):
+        if i % 9 == 0 or any(p in ('!^tests', '!tests$') for p in c['o'].get('t', ())):
+            c['mode'] = 'cli'
     chk.sample({'end_to_end': cases[30]['o']})
     corecheck.run_cases(chk, {'C03'}, cases, label='end-to-end')
 
